@@ -46,6 +46,9 @@ pub struct OpenFileDescription {
     is_appending: bool,
     /// Whether this file is opened in non-blocking mode
     is_nonblocking: bool,
+    /// Creation serial number, a stable identity for the simulator
+    #[cfg(feature = "verif-hooks")]
+    serial: u64,
 }
 
 impl Drop for OpenFileDescription {
@@ -74,7 +77,16 @@ impl OpenFileDescription {
             is_writable,
             is_appending,
             is_nonblocking,
+            #[cfg(feature = "verif-hooks")]
+            serial: super::sim_hook::next_ofd_serial(),
         }
+    }
+
+    /// Returns the creation serial number of this open file description.
+    #[cfg(feature = "verif-hooks")]
+    #[must_use]
+    pub fn serial(&self) -> u64 {
+        self.serial
     }
 
     /// Returns the i-node this open file description is operating on.
